@@ -66,7 +66,7 @@ for ci in [_msg] + _msg.all_subclasses():
                raises=[Raise("AvpDecodeError", "len(self._avps) > 0", "only_if")],
                modifies=["self.header.command_code", "self.header.command_flags", "self._avps", "dyn:self",
                          "*list:Any if len(self._avps) > 0", "*Avp._avps if len(self._avps) > 0"],
-               props=["C02", "C20", "C11", "C18"],
+               props=["C02", "C20", "C11", "C18", "C03"],
                note="generated: refines the behavioural contract Message.__post_init__ (frame: header code/flags, AVP list, "
                     "own attributes only)")
     FAMILY.append(name)
